@@ -168,7 +168,8 @@ theorem refAttr_eq (types : List Elem) (self : Path) (n ty : String) (o : Option
       (match a.deprecated with
        | some d => setKV "deprecated" (num d)
            (setKV "since_version" (num a.since) (setKV "name" (txt n) (encAttrKVs ["types", target.name] target)))
-       | none => setKV "since_version" (num a.since) (setKV "name" (txt n) (encAttrKVs ["types", target.name] target))) := by
+       | none => eraseKV "deprecated"
+           (setKV "since_version" (num a.since) (setKV "name" (txt n) (encAttrKVs ["types", target.name] target)))) := by
   simp only [elemAttrKVs, hl]
   cases a.deprecated <;> rfl
 
@@ -181,12 +182,13 @@ theorem refAttr_own (types : List Elem) (self : Path) (n ty : String) (o : Optio
   rcases h with rfl | rfl
   · cases a.deprecated with
     | none =>
-      exact (mem_setKV_other _ _ _ _ _ (by decide)).mpr (mem_setKV_self _ _ _)
+      exact (mem_eraseKV _ _ _ _).mpr
+        ⟨(mem_setKV_other _ _ _ _ _ (by decide)).mpr (mem_setKV_self _ _ _), by decide⟩
     | some d =>
       exact (mem_setKV_other _ _ _ _ _ (by decide)).mpr
         ((mem_setKV_other _ _ _ _ _ (by decide)).mpr (mem_setKV_self _ _ _))
   · cases a.deprecated with
-    | none => exact mem_setKV_self _ _ _
+    | none => exact (mem_eraseKV _ _ _ _).mpr ⟨mem_setKV_self _ _ _, by decide⟩
     | some d => exact (mem_setKV_other _ _ _ _ _ (by decide)).mpr (mem_setKV_self _ _ _)
 
 /-- everything else is the referred encoding's -/
@@ -203,26 +205,41 @@ theorem refAttr_inherited (types : List Elem) (self : Path) (n ty : String) (o :
   have h1 : (k, v) ∈ setKV "since_version" (num a.since) (setKV "name" (txt n) (encAttrKVs ["types", target.name] target)) :=
     (mem_setKV_other _ _ _ _ _ hn2).mpr ((mem_setKV_other _ _ _ _ _ hn1).mpr hbase)
   cases a.deprecated with
-  | none => exact h1
+  | none => exact (mem_eraseKV _ _ _ _).mpr ⟨h1, hd⟩
   | some d => exact (mem_setKV_other _ _ _ _ _ hd).mpr h1
 
-/-- `deprecated` of a ref: its own if it has one, else the referred encoding's (inherited member) -/
+/-- `deprecated` of a ref: its own attribute, nothing else (the inherited member is hidden) -/
 theorem refAttr_deprecated (types : List Elem) (self : Path) (n ty : String) (o : Option Nat) (a : Attrs) (target : Elem)
-    (hl : lookup types ty = some target) (ht : ∀ n ty o a, target ≠ .ref n ty o a) (v : String) :
-    ("deprecated", v) ∈ elemAttrKVs types self (.ref n ty o a) ↔
-      (match a.deprecated with
-       | some d => v = num d
-       | none => (elemAttrs target).deprecated.map num = some v) := by
+    (hl : lookup types ty = some target) (v : String) :
+    ("deprecated", v) ∈ elemAttrKVs types self (.ref n ty o a) ↔ a.deprecated.map num = some v := by
   rw [refAttr_eq types self n ty o a target hl]
   cases a.deprecated with
   | some d =>
+    simp only [Option.map_some, Option.some.injEq]
     constructor
-    · intro h; exact mem_setKV_key _ _ _ _ h
+    · intro h; exact (mem_setKV_key _ _ _ _ h).symm
     · intro h; subst h; exact mem_setKV_self _ _ _
   | none =>
-    simp only
-    rw [mem_setKV_other _ _ _ _ _ (by decide), mem_setKV_other _ _ _ _ _ (by decide)]
-    exact encAttr_deprecated _ target v ht
+    simp only [Option.map_none, reduceCtorEq, iff_false]
+    intro h
+    exact ((mem_eraseKV _ _ _ _).mp h).2 rfl
+
+/-- **no inherited `deprecated`**: for every encoding, ref or not, the `deprecated`
+    trait is present exactly when the element's own XML has the attribute -/
+theorem elemAttr_deprecated (types : List Elem) (self : Path) (e : Elem) (v : String)
+    (hl : ∀ n ty o a, e = .ref n ty o a → (lookup types ty).isSome = true ∨ a.deprecated = none) :
+    ("deprecated", v) ∈ elemAttrKVs types self e ↔ (elemAttrs e).deprecated.map num = some v := by
+  by_cases hr : ∃ n ty o a, e = .ref n ty o a
+  · obtain ⟨n, ty, o, a, rfl⟩ := hr
+    cases hlk : lookup types ty with
+    | some target => exact refAttr_deprecated types self n ty o a target hlk v
+    | none =>
+      rcases hl n ty o a rfl with h | h
+      · simp [hlk] at h
+      · simp [elemAttrKVs, hlk, elemAttrs, h]
+  · have hr' : ∀ n ty o a, e ≠ .ref n ty o a := fun n ty o a he => hr ⟨n, ty, o, a, he⟩
+    rw [elemAttrKVs_nonref types self e hr']
+    exact encAttr_deprecated self e v hr'
 
 /-! ### keys of the derived part -/
 
